@@ -190,7 +190,75 @@ func init() {
 
 		c19BootFacts(e)
 		c19PreBindFacts(e)
+		c19PhaseFacts(e)
 	}
+}
+
+// ---- ext7: the quota charge path reads a pod's phase only through util.IsPodTerminated ----
+
+// c19PhaseReads: number of `.Phase` selector reads in the body of fd, not counting arguments of klog calls (log text is not behaviour).
+func c19PhaseReads(fd *ast.FuncDecl) int {
+	n := 0
+	ast.Inspect(fd.Body, func(x ast.Node) bool {
+		switch v := x.(type) {
+		case *ast.CallExpr:
+			if strings.HasPrefix(c19Render(v.Fun), "klog.") {
+				return false
+			}
+		case *ast.SelectorExpr:
+			if v.Sel.Name == "Phase" {
+				n++
+			}
+		}
+		return true
+	})
+	return n
+}
+
+func c19PhaseFacts(e *ext) {
+	core := "pkg/scheduler/plugins/elasticquota/core"
+	plug := "pkg/scheduler/plugins/elasticquota"
+	total := 0
+	for _, f := range [][3]string{
+		{core, "GroupQuotaManager", "OnPodAdd"}, {core, "GroupQuotaManager", "OnPodUpdate"}, {core, "GroupQuotaManager", "OnPodDelete"},
+		{core, "GroupQuotaManager", "ReservePod"}, {core, "GroupQuotaManager", "UnreservePod"}, {core, "GroupQuotaManager", "MigratePod"},
+		{core, "GroupQuotaManager", "updatePodCacheNoLock"}, {core, "GroupQuotaManager", "updatePodIsAssignedNoLock"},
+		{core, "GroupQuotaManager", "updatePodUsedNoLock"}, {core, "GroupQuotaManager", "updatePodRequestNoLock"},
+		{core, "", "shouldBeIgnored"},
+		{plug, "Plugin", "OnPodAdd"}, {plug, "Plugin", "OnPodUpdate"}, {plug, "Plugin", "handlePodDelete"},
+		{plug, "Plugin", "Reserve"}, {plug, "Plugin", "Unreserve"}, {plug, "Plugin", "migrateDefaultQuotaGroupsPod"},
+		{plug, "Plugin", "getPodAssociateQuotaNameAndTreeID"}, {plug, "Plugin", "GetQuotaName"},
+	} {
+		fd := e.funcDecl(f[0], f[1], f[2])
+		if fd == nil || fd.Body == nil {
+			e.fail("%s.%s not found", f[1], f[2])
+			continue
+		}
+		total += c19PhaseReads(fd)
+	}
+	fmt.Fprintf(&e.out, "/-- direct reads of a pod's `.Phase` (outside klog arguments) in the 19 elasticquota functions of the charge path: the model's\n"+
+		"    only phase input is the `term` token = util.IsPodTerminated -/\ndef qPhaseReads : Nat := %d\n", total)
+	// util.IsPodTerminated names exactly the phases Succeeded and Failed
+	var phases []string
+	if fd := e.funcDecl("pkg/util", "", "IsPodTerminated"); fd == nil || fd.Body == nil {
+		e.fail("util.IsPodTerminated not found")
+	} else {
+		seen := map[string]bool{}
+		ast.Inspect(fd.Body, func(x ast.Node) bool {
+			if sel, ok := x.(*ast.SelectorExpr); ok {
+				switch sel.Sel.Name {
+				case "PodPending", "PodRunning", "PodSucceeded", "PodFailed", "PodUnknown":
+					if !seen[sel.Sel.Name] {
+						seen[sel.Sel.Name] = true
+						phases = append(phases, sel.Sel.Name)
+					}
+				}
+			}
+			return true
+		})
+		sort.Strings(phases)
+	}
+	fmt.Fprintf(&e.out, "/-- the corev1 phase constants util.IsPodTerminated mentions (sorted) -/\ndef qTerminatedPhases : List String := %s\n", c19StrList(phases))
 }
 
 // ---- ext2: reserve-pod merge order + start-up registrations ----
